@@ -189,6 +189,8 @@ def item_refs(it):
         out.append(it["at"])
     if it.get("dist"):
         out += list(it["dist"]["args"].values())
+    if it.get("wdist"):
+        out += list(it["wdist"]["args"].values())
     if it.get("transform") and it["transform"].get("arg"):
         out.append(it["transform"]["arg"])
     return out
@@ -222,7 +224,7 @@ def drop_item(spec, i):
 
 def item_names(it):
     n = it["name"]
-    return {n, it.get("wrap"), f"{n}_value", f"{n}_var_value", f"{n}_log_prob", f"{n}_transformed", f"{n}_transformed_value"}
+    return {n, it.get("wrap"), f"{it.get('wrap')}_log_prob", f"{it.get('wrap')}_var_value", f"{n}_value", f"{n}_var_value", f"{n}_log_prob", f"{n}_transformed", f"{n}_transformed_value"}
 
 
 def assignable_items(spec):
@@ -258,7 +260,7 @@ def compatible(have: str, want: str) -> bool:
 
 def gen_spec(rng, n_items=(4, 14), p_dist=0.5, p_transient=0.3, p_vec=0.35, seeded_p=0.0,
              hier=False, families=None, allow_pair=True, allow_group=True, allow_bare=True,
-             p_transform=0.0, transforms=None, roles=True, prefixes=("n", "v")) -> list[dict]:
+             p_transform=0.0, transforms=None, roles=True, prefixes=("n", "v"), weak_dist_p=0.25) -> list[dict]:
     NP, VP = prefixes
     fams = families or [f for f in FAMILIES if f != "uniform_lw"]
     n = rng.randint(*n_items)
@@ -366,8 +368,13 @@ def gen_spec(rng, n_items=(4, 14), p_dist=0.5, p_transient=0.3, p_vec=0.35, seed
             mode = "transient" if (rng.random() < p_transient and not seeded) else "cached"
             wrap = f"{VP}{idx}" if (fn != "pair" and rng.random() < 0.35) else None
             sh = [3] if any(("i" in r_ and items[r_["i"]].get("shape") == [3]) for r_ in inputs) and fn not in ("meanv",) else []
+            wdist = None
+            if wrap and mode == "cached" and OUT_KIND[fn] in ("real", "pos", "unit") and rng.random() < weak_dist_p:
+                # a *weak* variable that carries a distribution (its Dist is evaluated at a Calc)
+                wf = {"real": "normal", "pos": rng.choice(["gamma", "lognormal"]), "unit": "beta"}[OUT_KIND[fn]]
+                wdist = {"fam": wf, "args": {p_: pick_ref(k_) for p_, k_ in FAMILIES[wf]["params"].items()}, "transient": False, "per_obs": rng.random() < 0.7}
             items.append({"k": "calc", "name": f"{NP}{idx}", "fn": fn, "coef": coef, "inputs": inputs, "mode": mode,
-                          "wrap": wrap, "vk": OUT_KIND[fn], "shape": sh, "seeded": seeded})
+                          "wrap": wrap, "vk": OUT_KIND[fn], "shape": sh, "seeded": seeded, "wdist": wdist})
         elif r < 0.91:
             cands = [i for i, it in enumerate(items) if it.get("vk") not in (None, "pair") and it["k"] in ("value", "var", "calc")]
             if cands:
@@ -575,7 +582,8 @@ def construct(spec: list[dict], names=True) -> Built:
             c = cls(f, *ins, _name="" if un else it["name"], _needs_seed=bool(it.get("seeded")))
             b.node[i] = c
             if it.get("wrap"):
-                v = Var(c, name="" if un else it["wrap"])
+                wd = make_dist(b, f"{it['wrap']}_log_prob", it["wdist"], un) if it.get("wdist") else None
+                v = Var(c, wd, name="" if un else it["wrap"])
                 b.obj[i] = v
             else:
                 b.obj[i] = c
@@ -668,6 +676,8 @@ def node_inputs_from_spec(spec) -> dict[str, list[str]]:
             rel[it["name"]] = [x for x in (ref_node(r) for r in it["inputs"]) if x]
             if it.get("wrap"):
                 rel[f"{it['wrap']}_var_value"] = [it["name"]]
+                if it.get("wdist"):
+                    rel[f"{it['wrap']}_log_prob"] = [x for x in (ref_node(r) for r in it["wdist"]["args"].values()) if x] + [f"{it['wrap']}_var_value"]
         elif k == "ident":
             rel[it["name"]] = [x for x in [ref_node(it["input"])] if x]
         elif k == "igroup":
@@ -782,6 +792,8 @@ class RefGraph:
                 val[it["name"]] = out
                 if it.get("wrap"):
                     val[f"{it['wrap']}_var_value"] = out
+                    if it.get("wdist"):
+                        val[f"{it['wrap']}_log_prob"] = dist_val(it["wdist"], out)
             elif k == "ident":
                 val[it["name"]] = ref_val(it["input"])
             elif k == "igroup":
